@@ -206,8 +206,14 @@ theorem parseFunctionParameters_tm (hE : s.eof.type = .EOF ∨ s.eof.type = .EOL
     rcases h2 with ⟨rfl, _, rfl⟩ | ⟨rfl, _, hi2, hr2⟩
     · tvc
       simp only [Bool.not_true, Bool.false_eq_true, if_false]
-      tvc
-      exact ⟨inv_adv h1.1, by have := h1.2; simp at *; omega⟩
+      split
+      · tvc
+        exact ⟨inv_adv h1.1, by have := h1.2; simp at *; omega⟩
+      · tvc
+        apply errorLine_tm
+        tvc
+        have hr : rem s (advance s st1) ≤ rem s st := by have := h1.2; simp at *; omega
+        exact ⟨inv_pushErr _ (inv_adv h1.1), hr⟩
     · simp only [Bool.not_false, if_true, tm_pure]
       exact ⟨hi2, by have := h1.2; simp at *; omega⟩
 
